@@ -460,6 +460,12 @@ def zstd_encode_all(e, c, a):
 @model(r"^zstd::decode_all::<|^zstd::stream::decode_all::<|^decode_all::<&\[u8\]>$")
 def zstd_decode_all(e, c, a):
     l, lo, hi = e.seq_of(a[0])
+    if hi - lo == 2 and e.branch(e.binop("Eq", l[lo], Int(8, 0, ZMAGIC + 2))):
+        tab = e.h.get("zstd_table", [])
+        i = e.concretize(l[lo + 1], len(tab))
+        if i >= len(tab):
+            return err(io_err("zstd: unknown token"))
+        return ok(VecObj(list(tab[i])))
     if hi - lo >= 3 and e.branch(e.binop("Eq", l[lo], Int(8, 0, ZMAGIC + 1))):
         n = e.concretize(l[lo + 1], 255) + 256 * e.concretize(l[lo + 2], 255)
         if lo + 3 + n > hi:
@@ -586,11 +592,18 @@ def zstd_cctx_compress(e, c, a):
     dst, src = a[-3], a[-2]
     l, lo, hi = e.seq_of(src); n = hi - lo
     bound = n + (n >> 8) + (((128 << 10) - n) >> 11 if n < (128 << 10) else 0)
-    need = [n + 1, bound][e.choose(2)] if bound > n + 1 else n + 1
-    dv = e.load(dst) if isinstance(dst, Ref) and isinstance(e.load(dst), VecObj) else None
+    opts = [n + 1] + ([bound] if bound > n + 1 else []) + ([2] if n > 2 else [])
+    need = opts[e.choose(len(opts))] if len(opts) > 1 else opts[0]
     dl, dlo, dhi = e.seq_of(dst)
     if dhi - dlo < need:
         return err(usize(70))
+    if need == 2 and n > 2:
+        # a frame shorter than the input: an opaque token resolved through a side table (still lossless)
+        tab = e.h.setdefault("zstd_table", [])
+        tab.append(list(l[lo:hi]))
+        dl[dlo:dlo + 2] = [Int(8, 0, ZMAGIC + 2), Int(8, 0, len(tab) - 1)]
+        e.notes["zstd_frame_lengths"] = "2 (token), n+1 or compress_bound(n)"
+        return ok(usize(2))
     # frame = magic, payload; a worst-case frame carries its payload length after a second magic so that decoding is exact
     if need == n + 1:
         frame = [Int(8, 0, ZMAGIC)] + list(l[lo:hi])
